@@ -16,7 +16,7 @@ RULE = ('(i) every clause body tree with <= N operators from , ; -> \\+ over the
         'unparenthesised body l1 op1 l2 .. opk lk+1 (k <= K, ops from , ; ->, every leaf from {z o m true} '
         'optionally prefixed by \\+) compiled as written and compared with RefProlog run on the tree obtained by '
         'an independent operator-precedence reading; (iii) deep spines: every tree with <= D operators over the leaves {o m z ! and q = a test on the variable of a two-solution goal in front of the body, so that the construct is entered twice with different outcomes} placed in ONE position (condition, then, else, either alternative, negated goal, either conjunct) of a construct whose other positions are single leaves, with a continuation goal; every tree with exactly 3 operators over two of the leaves {o z !} in each TAIL position (then, else, right alternative, right conjunct); (iv) body-local variables: every tree <= 2 [thorough 3] operators whose leaves bind variables that do not occur in the head (X = a, Y = b, m(X), true, fail), exposed by a continuation R = r(X,Y). states = distinct answer sequences; transitions = '
-        '(v) long branches: a conjunction of 1..10 goals as then-branch, else-branch or continuation of 9 constructs whose condition has alternatives of its own (disjunction, if-then-else or negation inside the condition). '
+        '(vi) every body with <= 2 operators containing the leaf t2(V1), a test on the variable of the first goal that fails for its first solution and succeeds for the second (whether a construct committed to the first solution of its condition shows in the answers). (v) long branches: a conjunction of 1..10 goals as then-branch, else-branch or continuation of 9 constructs whose condition has alternatives of its own (disjunction, if-then-else or negation inside the condition). '
         'next() calls on the real engine; non-trivial = at least one answer')
 ASSUMPTIONS = ['RefProlog implements the standard semantics of ; -> \\+ and cut',
                'cuts in the condition of -> or under \\+ are outside the property and skipped',
@@ -41,6 +41,7 @@ def plan(tier):
     sh += [('tails', k, 64) for k in range(64)]
     sh += [('locals', k, 16, 2 if tier == 'quick' else 3) for k in range(16)]
     sh += [('long', k, 16) for k in range(16)]
+    sh += [('tfocus', k, 16) for k in range(16)]
     if tier != 'quick':
         sh += [('spine', k, 256, 3, tier) for k in range(256)]
     return sh
@@ -67,6 +68,8 @@ def run_shard(spec):
         return run_locals(spec)
     if spec[0] == 'long':
         return run_long(spec)
+    if spec[0] == 'tfocus':
+        return run_tfocus(spec)
     return run_prec(spec)
 
 
@@ -98,6 +101,39 @@ def long_cases():
         for si, t in enumerate(skeletons):
             yield idx, n, si, t
             idx += 1
+
+
+def run_tfocus(spec):
+    """bodies with the leaf t (a test on the first leaf's variable, false for its first solution, true
+    for the second): <= 2 operators over the 8 leaves + t, at least one t and one of ; -> \\+"""
+    _, k, n = spec
+    acc = Acc()
+    idx = 0
+    for nops in range(1, 3):
+        for t in bodies.trees(nops, bodies.LEAVES + ['t']):
+            idx += 1
+            if idx % n != k:
+                continue
+            if select(t) is not None:
+                continue
+            first = t
+            while first[0] != 'L':
+                first = first[1]
+            if first[1] not in ('m', 'o', 'k') or not _has_leaf(t, 't'):
+                continue
+            for vi, var in enumerate([dict(), dict(continuation=True)]):
+                case = treecheck.tree_case(t, **var)
+                res = case.run()
+                if res['status'] == 'violation':
+                    res['sig'] = 'test-on-condition-variable:' + res['sig']
+                account(acc, ('T', idx, vi), case, res, key='%s %r' % (bodies.show_tree(t), sorted(var.items())))
+    return acc
+
+
+def _has_leaf(t, kind):
+    if t[0] == 'L':
+        return t[1] == kind
+    return any(_has_leaf(c, kind) for c in t[1:])
 
 
 def run_long(spec):
